@@ -143,7 +143,7 @@ def field_bases():
     return _BASES
 
 
-def define_adhoc(spec):
+def define_adhoc(spec, dead=None):
     """Create an ad-hoc field subclass from a JSON spec and register it.
 
     spec = {"name": "F7_2", "base": "opt.FQ2", "attrs": {"field_modulus": 7,
@@ -151,12 +151,63 @@ def define_adhoc(spec):
     """
     base = REG.lookup(spec["base"])
     attrs = {}
-    for k, v in spec["attrs"].items():
-        attrs[k] = tuple(v) if isinstance(v, list) else v
-    cls = type(str(spec["name"]), (base,), attrs)
+    names = sorted(spec["attrs"])
+    for k in names:
+        v = spec["attrs"][k]
+        attrs[k] = _tuple_at(v, dead) if isinstance(v, list) else v
+    cls = None
+    if dead:
+        # object identity is a simulator decision too (fault kind F5): try to
+        # give the new class the address of a dead one
+        keep = []
+        for _ in range(40):
+            c = type(str(spec["name"]), (base,), dict(attrs))
+            if id(c) in dead:
+                cls = c
+                break
+            keep.append(c)
+        del keep
+    if cls is None:
+        cls = type(str(spec["name"]), (base,), attrs)
     cls.__module__ = "sim.adhoc"
     REG.add("adhoc.%s" % spec["name"], cls)
     return cls
+
+
+def _tuple_at(vals, dead, tries=3000):
+    """a fresh tuple(vals); when `dead` (addresses of tuples that belonged to
+    dropped classes) is given, keep allocating until one lands on a dead address,
+    so that identity reuse does not depend on the allocator's mood"""
+    if not dead or not vals:
+        return tuple(vals)
+    keep = []
+    hit = None
+    for _ in range(tries):
+        t = tuple(vals)
+        if id(t) in dead:
+            hit = t
+            break
+        keep.append(t)
+    del keep
+    return hit if hit is not None else tuple(vals)
+
+
+def drop_adhoc(name, dead=None):
+    """forget an ad-hoc class (the caller lets it die): remove every reference
+    the harness itself holds, so that only the library can keep it alive.
+    The addresses of the class and of its tuple attributes are added to `dead`."""
+    cls = REG.by_name.pop("adhoc.%s" % name, None)
+    if cls is None:
+        return False
+    REG.by_id.pop(id(cls), None)
+    for k in [k for k, v in _cache_attr_memo.items() if v[0] is cls]:
+        del _cache_attr_memo[k]
+    if dead is not None:
+        dead.add(id(cls))
+        for v in vars(cls).values():
+            if type(v) is tuple:
+                dead.add(id(v))
+    return True
 
 
 # --------------------------------------------------------------------------
